@@ -10,6 +10,7 @@ import (
 	"math/big"
 	"os"
 	"strconv"
+	"time"
 )
 
 type AssumeFailed struct{}
@@ -170,8 +171,25 @@ func SetUnwind(n int)             {}
 func Note(s string)               {}
 
 // Setenv / Unsetenv set the process environment of the node being simulated.
-func Setenv(name, value string) { os.Setenv(name, value) }
-func Unsetenv(name string)      { os.Unsetenv(name) }
+// Setenv / Unsetenv change the process environment as a freshly started node
+// would see it: the time package reads TZ only once per process, so the local
+// zone is re-derived here the way time.initLocal does at start-up.
+func Setenv(name, value string) {
+	os.Setenv(name, value)
+	if name == "TZ" {
+		time.Local = time.UTC
+		if loc, err := time.LoadLocation(value); err == nil && value != "" {
+			time.Local = loc
+		}
+	}
+}
+
+func Unsetenv(name string) {
+	os.Unsetenv(name)
+	if name == "TZ" {
+		time.Local = time.UTC // the sandbox's /etc/localtime
+	}
+}
 func Dump(name string, v any)     {}
 
 func IteU64(c bool, a, b uint64) uint64 {
